@@ -1,6 +1,7 @@
 import AasVerif.Lemmas.PyEmit
 import AasVerif.Lemmas.PyParen
 import AasVerif.Lemmas.PyParseSem
+import AasVerif.Lemmas.PyTrace
 import AasVerif.Lemmas.PyRules
 import AasVerif.Lemmas.SdkVerify
 import AasVerif.Lemmas.SdkExact
@@ -169,6 +170,52 @@ example :
       parse (print x) = .ok (.boolop false
         [.not (.compare (.attr .that .prop [97]) (.cmp .lt) (.int 3)), .attr .that .prop [98]]) [] :=
   ⟨_, rfl, by decide, rfl, rfl⟩
+
+/-! ## (b) transpiler: evaluation order
+
+`Expr.trace ρ e` / `PyExpr.trace ρ x` (`Model/EvalOrder.lean`): the operations that can raise —
+name lookups, attribute accesses, subscriptions, comparisons, `in`, `+`/`-`, calls, starts of
+iterations, `range(…)`, f-string formatting — with their operand values, in the order Python
+performs them (short-circuiting of `and` / `or` / implication, `any` / `all` stopping at the
+deciding element, everything stopping at the first exception). -/
+
+/-- **emit_order_preserves.** The emitted expression performs exactly the operations of the
+source expression, on the same values, in the same order, in every environment.  With
+`emit_preserves` (same outcome): it raises the same exception *at the same operation*, and it
+never performs an operation (a call, an attribute access) that the source short-circuits away. -/
+theorem emit_order_preserves (cfg : Cfg) (vs : List Text) (e : Expr) (x : PyExpr)
+    (hfloat : noNan e = true) (h : transpile cfg vs e = .ok x) (ρ : Env) :
+    PyExpr.trace ρ x = Expr.trace ρ e :=
+  trace_preserves cfg e vs x hfloat h ρ
+
+/-- … and the whole `if not <expr>:` condition (the negation adds no operation). -/
+theorem emit_invariant_order_preserves (cfg : Cfg) (e : Expr) (x : PyExpr)
+    (hfloat : noNan e = true) (h : transpileInvariant cfg e = .ok x) (ρ : Env) :
+    PyExpr.trace ρ x = Expr.trace ρ e := by
+  simp only [transpileInvariant, Res.bind_eq_ok] at h
+  obtain ⟨y, hy, h⟩ := h
+  cases h
+  simp only [PyExpr.trace, trace_parenUnless, trace_preserves cfg e [] y hfloat hy ρ]
+
+/-- The order statement is strictly stronger than `emit_preserves`: `a.x or b.x` and
+`b.x or a.x` have the same outcome where both `a` and `b` are `None` (`AttributeError`), but
+different traces; and where `a.x` is truthy the second operand is not touched. -/
+theorem order_is_observable :
+    let e1 : Expr := .or [.member (.name [97]) [120], .member (.name [98]) [120]]
+    let e2 : Expr := .or [.member (.name [98]) [120], .member (.name [97]) [120]]
+    let env (vars : List (Text × Val)) : Env :=
+      ⟨vars, fun _ => none, fun _ _ => none, ⟨fun _ _ _ => .otherError, fun _ _ _ => .otherError, fun _ => false, id⟩,
+        fun _ => .otherError⟩
+    let ρ := env [([97], .none), ([98], .none)]
+    let ρ' := env [([97], .inst 0 [67] [([120], .bool true)]), ([98], .none)]
+    Expr.eval ρ e1 = Expr.eval ρ e2 ∧ Expr.trace ρ e1 ≠ Expr.trace ρ e2 ∧
+      Expr.trace ρ' e1 = [.load [97], .getattr (.inst 0 [67] [([120], .bool true)]) [120]] := by
+  intro e1 e2 env ρ ρ'
+  refine ⟨rfl, ?_, rfl⟩
+  have h1 : Expr.trace ρ e1 = [.load [97], .getattr .none [120]] := rfl
+  have h2 : Expr.trace ρ e2 = [.load [98], .getattr .none [120]] := rfl
+  rw [h1, h2]
+  simp
 
 /-! ## (a) parse rules -/
 
